@@ -13,6 +13,7 @@ import (
 	"context"
 	"errors"
 	"fmt"
+	"runtime"
 	"sort"
 	"strings"
 	"sync"
@@ -80,8 +81,8 @@ func TestVerifC20(t *testing.T) {
 		Property: "C20",
 		Cases:    nSeq + nConc,
 		Rule: "case i<nSeq: PRNG history of Open/Append/After/SetMaxBytes/SessionClosed over <=3 sessions x <=3 streams, payload sizes 0..limit+5, limits 1..96, " +
-			"full probe of every stream against the reference log after every op; case i>=nSeq: 2-6 goroutines with unique payloads, call/return stamped by one logical clock, " +
-			"checked by porcupine (no eviction) or the structural order checker (eviction); every 8th of them instead closes a session that holds most of the budget in thousands of streams while other sessions append and resize, then probes every surviving stream. non-trivial: sequential history with >=1 eviction observed or >=1 SessionClosed followed by appends; " +
+			"full probe of every stream against the reference log after every op; every 10th of them is a long history (80..500 small appends to 1-2 streams, so that one stream loses dozens of items to eviction while holding dozens more, limit shrunk and grown on the way) probed every 16 ops; case i>=nSeq: 2-6 goroutines with unique payloads, call/return stamped by one logical clock, " +
+			"checked by porcupine (no eviction) or the structural order checker (eviction); every 8th of them instead closes a session that holds most of the budget in thousands of streams while other sessions append and resize, then probes every surviving stream, and another every 8th fills the store to exactly its limit and releases 2-8 spinning appenders at one moment (20 rounds), checking the byte bound at every quiescent point. non-trivial: sequential history with >=1 eviction observed or >=1 SessionClosed followed by appends; " +
 			"concurrent history with >=2 overlapping operations on one stream. distinct = distinct (op-kind sequence, eviction pattern) / (overlap pattern) signatures",
 		MinNontrivial: 50,
 		Assumptions: []string{"indices passed to After are >= -1", "limits >= 1 (SetMaxBytes(0) means default and is exercised only as 'very large')",
@@ -89,10 +90,14 @@ func TestVerifC20(t *testing.T) {
 	}
 	vh.Run(t, cfg, func(c *vh.Case) {
 		switch {
+		case c.Index < nSeq && c.Index%10 == 9:
+			longStreamCase(c)
 		case c.Index < nSeq:
 			sequentialCase(c)
 		case (c.Index-nSeq)%8 == 7:
 			closeUnderLoadCase(c)
+		case (c.Index-nSeq)%8 == 3:
+			burstAtLimitCase(c)
 		default:
 			concurrentCase(c)
 		}
@@ -847,4 +852,244 @@ func closeUnderLoadCase(c *vh.Case) {
 		return
 	}
 	c.Nontrivial(fmt.Sprintf("close-under-load/%d/%d/%d/%d/%v", nA/500, others, perG, big*4/limit, resize))
+}
+
+// longStreamCase: few streams, many small items: a stream loses dozens of items to eviction while it
+// still holds dozens more (the regime in which an implementation compacts or re-slices its buffers).
+func longStreamCase(c *vh.Case) {
+	r := c.R
+	ctx := context.Background()
+	s := mcp.NewMemoryEventStore(nil)
+	limit := r.Range(60, 600)
+	s.SetMaxBytes(limit)
+	nStr := r.Range(1, 2)
+	ref := make([]*refStream, nStr)
+	for i := range ref {
+		ref[i] = &refStream{}
+	}
+	nOps := r.Range(80, 500)
+	maxItem := r.Range(2, 9)
+	evictions, shrinks := 0, 0
+	lastItem := 0
+	check := func(opIdx int) bool {
+		total := 0
+		for k, rs := range ref {
+			st := fmt.Sprintf("t%d", k)
+			n := len(rs.log)
+			if n == 0 {
+				continue
+			}
+			first := -1
+			for i := max(rs.first-2, -1); i <= n-1; i++ {
+				got, err := afterAll(s, "S", st, i)
+				c.Count("after_probes", 1)
+				if err != nil {
+					if !errors.Is(err, mcp.ErrEventsPurged) {
+						c.Violate("after-unexpected-error", "op %d: After(S,%s,%d) = %v", opIdx, st, i, err)
+						return false
+					}
+					if len(got) != 0 {
+						c.Violate("partial-before-purge-error", "op %d: After(S,%s,%d) yielded %d items and then ErrEventsPurged", opIdx, st, i, len(got))
+						return false
+					}
+					continue
+				}
+				if !eqSlices(got, rs.log[i+1:]) {
+					bad := 0
+					for bad < len(got) && bad < n-(i+1) && string(got[bad]) == string(rs.log[i+1+bad]) {
+						bad++
+					}
+					c.Violate("after-mismatch", "op %d: After(S,%s,%d) returned %d items, reference log[%d:] has %d; first difference at stream index %d", opIdx, st, i, len(got), i+1, n-(i+1), i+1+bad)
+					return false
+				}
+				first = i + 1
+				break
+			}
+			if first == -1 {
+				first = n
+			}
+			if first < rs.first {
+				c.Violate("retained-not-suffix", "op %d: stream %s first retained index went back %d -> %d", opIdx, st, rs.first, first)
+				return false
+			}
+			evictions += first - rs.first
+			rs.first = first
+			// a replay from the middle of the retained part
+			if n-first >= 3 {
+				mid := first + r.Intn(n-first-1)
+				got, err := afterAll(s, "S", st, mid)
+				if err != nil || !eqSlices(got, rs.log[mid+1:]) {
+					c.Violate("after-mismatch", "op %d: After(S,%s,%d) (middle of the retained part %d..%d) returned %d items, err %v", opIdx, st, mid, first, n-1, len(got), err)
+					return false
+				}
+			}
+			for _, d := range rs.log[first:] {
+				total += len(d)
+			}
+		}
+		if total > s.MaxBytes()+lastItem {
+			c.Violate("over-limit", "op %d: retained %d bytes > max %d + last item %d", opIdx, total, s.MaxBytes(), lastItem)
+			return false
+		}
+		return true
+	}
+	for i := 0; i < nOps; i++ {
+		switch x := r.Intn(100); {
+		case x < 92:
+			k := r.Intn(nStr)
+			d := []byte(fmt.Sprintf("%0*d", r.Range(1, maxItem), len(ref[k].log)))
+			if err := s.Append(ctx, "S", fmt.Sprintf("t%d", k), d); err != nil {
+				c.Violate("append-error", "Append: %v", err)
+				return
+			}
+			ref[k].log = append(ref[k].log, d)
+			lastItem = len(d)
+		case x < 96:
+			nm := r.Range(max(8, limit/6), limit)
+			s.SetMaxBytes(nm)
+			shrinks++
+			if !check(i) {
+				return
+			}
+		default:
+			s.SetMaxBytes(limit)
+		}
+		if i%16 == 15 && !check(i) {
+			return
+		}
+	}
+	if !check(nOps) {
+		return
+	}
+	held := 0
+	for _, rs := range ref {
+		held = max(held, len(rs.log)-rs.first)
+	}
+	c.SetSpec(map[string]any{"mode": "long-stream", "limit": limit, "streams": nStr, "ops": nOps, "max_item": maxItem})
+	c.Count("seq_ops", nOps)
+	c.Count("evictions_observed", evictions)
+	c.Seen("long-stream-regime", fmt.Sprintf("evicted>=32:%v held>=32:%v", evictions >= 32, held >= 32))
+	if evictions > 0 {
+		c.Nontrivial(fmt.Sprintf("long:%d/%d/%d/%d/%d", nStr, limit/50, nOps/50, evictions/16, shrinks))
+	}
+}
+
+// burstAtLimitCase: the store holds exactly MaxBytes; several appenders are released at one moment.
+// At every quiescent point the store may hold at most MaxBytes plus one item (the statement's bound),
+// however the appends interleaved.
+func burstAtLimitCase(c *vh.Case) {
+	r := c.R
+	ctx := context.Background()
+	s := mcp.NewMemoryEventStore(nil)
+	item := r.Range(1, 8)
+	slots := r.Range(2, 12)
+	limit := item * slots
+	s.SetMaxBytes(limit)
+	G := r.Range(2, 8)
+	nStr := r.Range(1, 3)
+	logs := make([][][]byte, nStr)
+	firsts := make([]int, nStr)
+	var lmu sync.Mutex
+	seq := 0
+	one := func(k int) error {
+		lmu.Lock()
+		seq++
+		d := []byte(fmt.Sprintf("%0*d", item, seq%pow10(item)))
+		lmu.Unlock()
+		// the order of a stream's log is the order in which its appends were admitted; with several
+		// appenders per stream it is recovered from the store afterwards, so each stream has one appender
+		err := s.Append(ctx, "S", fmt.Sprintf("t%d", k), d)
+		lmu.Lock()
+		logs[k] = append(logs[k], d)
+		lmu.Unlock()
+		return err
+	}
+	for i := 0; i < slots; i++ {
+		if err := one(i % nStr); err != nil {
+			c.Violate("append-error", "Append: %v", err)
+			return
+		}
+	}
+	rounds := 20
+	worst := 0
+	for round := 0; round < rounds; round++ {
+		var ready, goFlag atomic.Int32
+		var wg sync.WaitGroup
+		errs := make([]error, G)
+		for g := 0; g < G; g++ {
+			g := g
+			wg.Add(1)
+			go func() {
+				defer wg.Done()
+				ready.Add(1)
+				for goFlag.Load() == 0 {
+				}
+				// appenders of one stream are serialised by the harness (one logical producer per stream)
+				errs[g] = burstAppend(s, item, g, round)
+			}()
+		}
+		for int(ready.Load()) < G {
+			runtime.Gosched()
+		}
+		goFlag.Store(1)
+		wg.Wait()
+		for _, e := range errs {
+			if e != nil {
+				c.Violate("append-error", "Append during burst: %v", e)
+				return
+			}
+		}
+		// quiescent: count what is retained
+		total := 0
+		for k := 0; k < nStr; k++ {
+			st := fmt.Sprintf("t%d", k)
+			n := len(logs[k])
+			for i := max(firsts[k]-1, -1); i <= n-1; i++ {
+				got, err := afterAll(s, "S", st, i)
+				if err != nil {
+					continue
+				}
+				firsts[k] = i + 1
+				for _, d := range got {
+					total += len(d)
+				}
+				break
+			}
+		}
+		for g := 0; g < G; g++ {
+			st := fmt.Sprintf("b%d", g)
+			for i := -1; i <= round; i++ {
+				got, err := afterAll(s, "S", st, i)
+				if err != nil {
+					continue
+				}
+				for _, d := range got {
+					total += len(d)
+				}
+				break
+			}
+		}
+		c.Count("burst_rounds", 1)
+		worst = max(worst, total)
+		if total > s.MaxBytes()+item {
+			c.SetSpec(map[string]any{"mode": "burst-at-limit", "item": item, "limit": limit, "appenders": G, "round": round})
+			c.Violate("over-limit", "after %d simultaneous appends of %d bytes to a store holding exactly its limit, %d bytes are retained > max %d + one item %d", G, item, total, s.MaxBytes(), item)
+			return
+		}
+	}
+	c.SetSpec(map[string]any{"mode": "burst-at-limit", "item": item, "limit": limit, "appenders": G, "rounds": rounds})
+	c.Nontrivial(fmt.Sprintf("burst/%d/%d/%d", item, slots, G))
+}
+
+func burstAppend(s *mcp.MemoryEventStore, item, g, round int) error {
+	d := []byte(fmt.Sprintf("%0*d", item, (g*100+round)%pow10(item)))
+	return s.Append(context.Background(), "S", fmt.Sprintf("b%d", g), d)
+}
+
+func pow10(n int) int {
+	p := 1
+	for i := 0; i < n; i++ {
+		p *= 10
+	}
+	return p
 }
